@@ -293,8 +293,11 @@ class ParseContext(ParserEngine):
             return cstfinal(self.cst)
         finally:
             ast = self.ast
+            cutseen = self.state.cutseen
             self.states.pop()
             self.ast = ast
+            # NOTE: a cut seen by the isolated expression commits the enclosing option
+            self.state.cutseen = self.state.cutseen or cutseen
 
     _isolate = isolate
 
